@@ -249,7 +249,7 @@ Proof. exact crt_R. Qed.
 Print Assumptions C10_CandidateRelativeTolerance_documented.
 
 Theorem C10_SolutionImprovement_documented : forall (tol : R) (s : view NumR) (xs : list (list R)),
-  trial s = Trial2 xs -> xs <> [] ->
+  trial s = @Trial2 NumR xs -> xs <> [] ->
   (si NumR tol s = Sat <-> forall r, In r xs -> nsum NumR (vabsdiff NumR (best s) r) <= tol).
 Proof. exact si_R. Qed.
 Print Assumptions C10_SolutionImprovement_documented.
@@ -372,7 +372,7 @@ Example C10_nonvacuous :
   let out := fun c : bool => if c then Sat else Unsat in
   let t := mk KOr [mk KAnd [Leaf 0 true; Leaf 1 false]; mk_when (Leaf 2 true); mk KAnd [mk KOr [Leaf 3 false; Leaf 4 true]; Leaf 5 true]] in
   wf t = true /\ canonical t = true /\ when_single t = true /\ no_empty_all t = true /\
-  eval out t = true /\ info out t = [(2, false); (4, false); (5, false)] /\ build (describe t) = Some t.
+  eval out t = true /\ info out t = [(2%nat, false); (4%nat, false); (5%nat, false)] /\ build (describe t) = Some t.
 Proof. cbn. repeat split. Qed.
 
 (* the window hypotheses of the primitive theorems are satisfiable: a staircase history with a plateau at the end *)
